@@ -8,18 +8,20 @@ import (
 
 // C03Shape is handed over by the generated code for one struct type T.
 type C03Shape struct {
-	ID    int
-	Size  uintptr // unsafe.Sizeof(T{})
-	Align uintptr
-	Wit   []Wit                                // compiler's view of the listing entries, in TLC's listing order
-	List  func() []Entry                       // hseq.New[T]()
-	Name  func(string) Entry                   // hseq.ForName(hseq.New[T](), k)
-	Maybe func(string) (Entry, bool)           // hseq.ForNameMaybe
-	Type  map[string]func() Entry              // model type -> hseq.ForType[A, T]
-	Sel   func(...string) []Entry              // hseq.New[T](names...)
-	SelT  map[string]func() []Entry            // "A|B|C" -> hseq.New3[T, A, B, C]()
-	FMap  func() []Probe                       // hseq.FMap(hseq.New[T](), probe)
-	FMapN map[int]func(names []string) []Probe // N -> hseq.FMapN(hseq.New[T](names...), probe 0, ..., probe N-1)
+	ID     int
+	Size   uintptr // unsafe.Sizeof(T{})
+	Align  uintptr
+	Wit    []Wit                                // compiler's view of the listing entries, in TLC's listing order
+	List   func() []Entry                       // hseq.New[T]()
+	Name   func(string) Entry                   // hseq.ForName(hseq.New[T](), k)
+	Maybe  func(string) (Entry, bool)           // hseq.ForNameMaybe
+	Type   map[string]func() Entry              // model type -> hseq.ForType[A, T]
+	Sel    func(...string) []Entry              // hseq.New[T](names...)
+	SelT   map[string]func() []Entry            // "A|B|C" -> hseq.New3[T, A, B, C]()
+	Subs   map[string]func() []Entry            // struct type of the shape -> hseq.New[E]() (the type unfolded on its own)
+	Outer2 func() []Entry                       // hseq.New[T1]() for T1 struct{ Pad0 int64; <first embedded struct of T> }
+	FMap   func() []Probe                       // hseq.FMap(hseq.New[T](), probe)
+	FMapN  map[int]func(names []string) []Probe // N -> hseq.FMapN(hseq.New[T](names...), probe 0, ..., probe N-1)
 }
 
 type c03Listing struct {
@@ -43,7 +45,16 @@ type c03Sel struct {
 	Ix    []int    `json:"ix"`
 }
 
+type c03Sub struct {
+	Ty      string       `json:"ty"`
+	Listing []c03Listing `json:"listing"`
+}
+
 type c03Case struct {
+	Subs   []c03Sub `json:"subs"`
+	Outer2 struct {
+		Listing []c03Listing `json:"listing"`
+	} `json:"outer2"`
 	SID     int          `json:"sid"`
 	Size    int          `json:"size"`
 	Align   int          `json:"align"`
@@ -246,4 +257,60 @@ func runC03(r *reporter, s *C03Shape, c *c03Case) {
 			}
 		}
 	}
+	// ---- what the process unfolded before must not matter: every struct type of the shape on its own, a second outer struct
+	// that embeds the first embedded struct at another offset, and then the shape itself once more.  (Keys, names, IDs and the
+	// offsets of the by-value entries are compared with the model's listing of that struct; the model's layout was checked
+	// against the compiler above.)
+	plain := func(api string, got []Entry, want []c03Listing) {
+		r.stats["calls"]++
+		if len(got) != len(want) {
+			r.pviol("listing-length", s.ID, rec{"api": api, "detail": fmt.Sprintf("%d entries, want %d", len(got), len(want))})
+			return
+		}
+		for j, x := range want {
+			e := got[j]
+			switch {
+			case e.Key != x.Key || e.Name != x.Name:
+				r.pviol("listing-key", s.ID, rec{"api": api, "pos": j, "detail": fmt.Sprintf("FieldKey %q / name %q, want %q / %q", e.Key, e.Name, x.Key, x.Name)})
+			case e.ID != x.ID:
+				r.pviol("listing-id", s.ID, rec{"api": api, "pos": j, "detail": fmt.Sprintf("ID %d, want %d", e.ID, x.ID)})
+			case x.ByVal && int(e.Abs) != x.Abs:
+				r.pviol("listing-offset", s.ID, rec{"api": api, "pos": j, "detail": fmt.Sprintf("RootOffs+Offset = %d, the field %s is at %d", e.Abs, strings.Join(x.Path, "."), x.Abs)})
+			}
+			r.stats["entries"]++
+		}
+	}
+	for _, sub := range c.Subs {
+		f := s.Subs[sub.Ty]
+		if f == nil {
+			r.infra(s.ID, "no generated hseq.New for "+sub.Ty)
+			continue
+		}
+		var es []Entry
+		if p, msg := try(func() { es = f() }); p {
+			r.pviol("listing-panic", s.ID, rec{"api": "New[" + sub.Ty + "] (a struct type of the shape on its own)", "detail": msg})
+			continue
+		}
+		plain("New["+sub.Ty+"] (a struct type of the shape on its own, after the shape)", es, sub.Listing)
+	}
+	if s.Outer2 != nil && len(c.Outer2.Listing) > 0 {
+		var es []Entry
+		if p, msg := try(func() { es = s.Outer2() }); p {
+			r.pviol("listing-panic", s.ID, rec{"api": "New[struct{ Pad0 int64; <the first embedded struct> }]", "detail": msg})
+		} else {
+			plain("New[struct{ Pad0 int64; <the first embedded struct of the shape> }] (a second struct embedding it, at another offset)", es, c.Outer2.Listing)
+		}
+	}
+	if p, msg := try(func() { list = s.List() }); p {
+		r.pviol("listing-panic", s.ID, rec{"api": "New (once more)", "detail": msg})
+	} else if len(list) != len(c.Listing) {
+		r.pviol("listing-length", s.ID, rec{"api": "New (once more)", "detail": fmt.Sprintf("%d entries, want %d", len(list), len(c.Listing))})
+	} else {
+		for j := range list {
+			if k, d := c.same(s, list[j], j+1); k != "" {
+				r.pviol("listing-"+k, s.ID, rec{"api": "New (once more, after its struct types were unfolded on their own)", "pos": j, "detail": d})
+			}
+		}
+	}
+	r.stats["calls"]++
 }
